@@ -15,6 +15,10 @@ From Coq Require Import ZArith Lia ZifyN ZifyNat ZifyBool List.
 Import ListNotations.
 Local Open Scope N_scope.
 
+(* encoder operations: inl n = SetMaxTableSize(n); inr = a header block (eop), with its stream and Ctx (rop) *)
+Notation eop := (N + crequest * bytes)%type.
+Notation rop := (N + (N * N * crequest * bytes))%type.
+
 Section Req.
 Context {hstate : Type}.
 Variable dec_field : hstate -> N -> bytes -> dec_res hstate.
@@ -23,9 +27,15 @@ Variable enc_set_max : hstate -> N -> hstate.
 Variable cfg : cl_config.
 Implicit Types c : cconn hstate.
 
+(* The micro-moves are those of the model run with an encoder whose SetMaxTableSize does nothing (smid): a step of the
+   real model is a step of that model, preceded - when the write loop takes a request in and the table size the server
+   asked for is not the one the encoder has seen - by the one SetMaxTableSize call of writeRequest (step_split). That
+   way the size applied is known to be the cc_encTableSize of the state the step starts in. *)
+Notation smid := (fun (e : hstate) (_ : N) => e).
 Notation step := (cl_step dec_field enc_field enc_set_max cfg).
-Notation mvs := (mvs dec_field enc_field enc_set_max).
-Notation mv1 := (mv1 enc_field enc_set_max).
+Notation stepi := (cl_step dec_field enc_field smid cfg).
+Notation mvs := (mvs dec_field enc_field smid).
+Notation mv1 := (mv1 enc_field smid).
 Notation feedmove := (feedmove dec_field).
 
 (* ---------- a Ctx keeps its request, and its stream once it has one ---------- *)
@@ -125,6 +135,27 @@ Inductive enc_chain (e0 : hstate) : list (crequest * bytes) -> hstate -> Prop :=
 | ec_size l e n : enc_chain e0 l e -> enc_chain e0 l (enc_set_max e n)
 | ec_req l e rq blk e' : enc_chain e0 l e -> cl_request_block enc_field e rq = (blk, e') -> enc_chain e0 (l ++ [(rq, blk)]) e'.
 
+(* ... with the SetMaxTableSize calls: inl n = SetMaxTableSize(n), inr (rq, blk) = the block blk encoded for rq *)
+Inductive enc_chain_s (e0 : hstate) : list eop -> hstate -> Prop :=
+| ecs_nil : enc_chain_s e0 [] e0
+| ecs_size l e n : enc_chain_s e0 l e -> enc_chain_s e0 (l ++ [inl n]) (enc_set_max e n)
+| ecs_req l e rq blk e' : enc_chain_s e0 l e -> cl_request_block enc_field e rq = (blk, e') -> enc_chain_s e0 (l ++ [inr (rq, blk)]) e'.
+
+Definition rights_of {A B} (l : list (A + B)) : list B := flat_map (fun o => match o with inr b => [b] | inl _ => [] end) l.
+Definition sizes_of {A B} (l : list (A + B)) : list A := flat_map (fun o => match o with inl n => [n] | inr _ => [] end) l.
+
+Lemma rights_of_app {A B} (a b : list (A + B)) : rights_of (a ++ b) = rights_of a ++ rights_of b.
+Proof. apply flat_map_app. Qed.
+Lemma sizes_of_app {A B} (a b : list (A + B)) : sizes_of (a ++ b) = sizes_of a ++ sizes_of b.
+Proof. apply flat_map_app. Qed.
+
+Lemma enc_chain_s_forget e0 l e : enc_chain_s e0 l e -> enc_chain e0 (rights_of l) e.
+Proof.
+  induction 1 as [|l e n H IH|l e rq blk e' H IH RB]; [apply ec_nil | |]; rewrite rights_of_app; cbn [rights_of flat_map app].
+  - rewrite app_nil_r. apply ec_size, IH.
+  - eapply ec_req; [exact IH | exact RB].
+Qed.
+
 Definition hdrs_of (tr : list coutev) : list (N * bool * bytes) :=
   flat_map (fun o => match o with COHeaders sid es b => [(sid, es, b)] | _ => [] end) tr.
 
@@ -143,6 +174,13 @@ Qed.
 Definition rentry : Type := (N * N * crequest * bytes)%type.
 Definition re_hdr (r : rentry) : N * bool * bytes := let '(id, tag, rq, blk) := r in (id, negb (rq_has_body rq), blk).
 Definition re_rb (r : rentry) : crequest * bytes := let '(id, tag, rq, blk) := r in (rq, blk).
+(* what the encoder did, with the stream and the Ctx of each block *)
+Definition rop_eop (o : rop) : eop := match o with inl n => inl n | inr r => inr (re_rb r) end.
+
+Lemma rights_of_rop l : rights_of (map rop_eop l) = map re_rb (rights_of l).
+Proof. induction l as [|[n|r] l IH]; [reflexivity | exact IH|]. cbn [map rop_eop rights_of flat_map app]. f_equal. exact IH. Qed.
+Lemma sizes_of_rop l : sizes_of (map rop_eop l) = sizes_of l.
+Proof. induction l as [|[n|r] l IH]; [reflexivity | | exact IH]. cbn [map rop_eop sizes_of flat_map app]. f_equal. exact IH. Qed.
 
 Definition ReqInv (e0 : hstate) c : Prop :=
   exists l : list rentry,
@@ -150,18 +188,38 @@ Definition ReqInv (e0 : hstate) c : Prop :=
     (forall id tag rq blk, In (id, tag, rq, blk) l -> id <> 0 /\ exists x, cl_ctx_get c tag = Some x /\ ct_sid x = id /\ ct_req x = rq) /\
     exists e, enc_chain e0 (map re_rb l) e /\ (cl_wl_live c = true -> e = cc_enc c).
 
+(* the same with the sizes: every size applied satisfies Psz *)
+Definition ReqInvS (Psz : N -> Prop) (e0 : hstate) c : Prop :=
+  exists ops : list rop,
+    hdrs_of (rev (cc_out c)) = map re_hdr (rights_of ops) /\
+    (forall id tag rq blk, In (id, tag, rq, blk) (rights_of ops) ->
+       id <> 0 /\ exists x, cl_ctx_get c tag = Some x /\ ct_sid x = id /\ ct_req x = rq) /\
+    Forall Psz (sizes_of ops) /\
+    exists e, enc_chain_s e0 (map rop_eop ops) e /\ (cl_wl_live c = true -> e = cc_enc c).
+
+Lemma ReqInvS_ReqInv Psz e0 c : ReqInvS Psz e0 c -> ReqInv e0 c.
+Proof.
+  intros (ops & H1 & H2 & _ & e & H3 & H4). exists (rights_of ops). split; [exact H1|]. split; [exact H2|].
+  exists e. split; [|exact H4]. rewrite <- rights_of_rop. apply enc_chain_s_forget, H3.
+Qed.
+
+Section WithP.
+Variable Psz : N -> Prop.
+Notation ReqInvS := (ReqInvS Psz).
+
 Lemma ReqInv_keep e0 c c' :
   srk c c' -> (exists new, cc_out c' = new ++ cc_out c /\ hdrs_of (rev new) = []) -> cc_enc c' = cc_enc c ->
-  (cl_wl_live c' = true -> cl_wl_live c = true) -> ReqInv e0 c -> ReqInv e0 c'.
+  (cl_wl_live c' = true -> cl_wl_live c = true) -> ReqInvS e0 c -> ReqInvS e0 c'.
 Proof.
-  intros SR (new & EO & FO) EN WL (l & H1 & H2 & e & H3 & H4). exists l. split; [|split].
+  intros SR (new & EO & FO) EN WL (l & H1 & H2 & HP & e & H3 & H4). exists l. split; [|split; [|split]].
   - rewrite EO, rev_app_distr, hdrs_of_app, H1, FO, app_nil_r. reflexivity.
   - intros id tag rq blk I. destruct (H2 id tag rq blk I) as (N0 & x & G & S & R). split; [exact N0|].
     destruct (SR tag x G) as (x' & G' & R' & S'). exists x'. split; [exact G'|]. split; [rewrite S'; [exact S | rewrite S; exact N0] | congruence].
+  - exact HP.
   - exists e. split; [exact H3|]. intro L. rewrite EN. exact (H4 (WL L)).
 Qed.
 
-Lemma ReqInv_mv1 e0 c c' : Pre c -> IdInv c -> ReqInv e0 c -> mv1 c c' -> ReqInv e0 c'.
+Lemma ReqInv_mv1 e0 c c' : Pre c -> IdInv c -> ReqInvS e0 c -> mv1 c c' -> ReqInvS e0 c'.
 Proof.
   intros P II RI M. destruct M as [c c' Q|c tag rq armed G|c tag x G S0 NI|c|c tag x G S0 NI LE L|c tag x c' G S0 NI LE Q L F|c tag x e G E].
   - apply (ReqInv_keep e0 c c'); [exact (srk_qm _ _ _ Q) | | exact (qm_enc _ _ _ Q) | exact (qm_wl _ _ _ Q) | exact RI].
@@ -169,17 +227,16 @@ Proof.
   - apply (ReqInv_keep e0 c); try reflexivity; [|exists []; split; reflexivity | auto | exact RI].
     intros t y Gy. exists y. split; [|auto]. unfold cl_ctx_get in *. cbn. rewrite cl_ctxs_get_app, Gy. reflexivity.
   - apply (ReqInv_keep e0 c); try reflexivity; [apply srk_same; reflexivity | exists []; split; reflexivity | auto | exact RI].
-  - destruct RI as (l & H1 & H2 & e & H3 & H4). exists l. split; [exact H1|]. split; [exact H2|].
-    destruct (cl_wl_live c) eqn:L.
-    + exists (enc_set_max e (cc_encTableSize c)). split; [apply ec_size; exact H3|]. intros _. cbn. rewrite (H4 eq_refl). reflexivity.
-    + exists e. split; [exact H3|]. cbn. intro L'. change (cl_wl_live (ccu_enc (ccu_encTableSeen c (cc_encTableSize c)) (enc_set_max (cc_enc c) (cc_encTableSize c)))) with (cl_wl_live c) in L'. congruence.
+  - (* the size move of the model whose SetMaxTableSize does nothing: the encoder stays *)
+    apply (ReqInv_keep e0 c); try reflexivity; [apply srk_same; reflexivity | exists []; split; reflexivity | auto | exact RI].
   - (* the request goes out *)
-    destruct (reg_state_facts dec_field enc_field enc_set_max c tag x G LE) as (E1 & E2 & E3 & _ & _ & _ & _ & E8). unfold reg_state in *.
+    destruct (reg_state_facts dec_field enc_field smid c tag x G LE) as (E1 & E2 & E3 & _ & _ & _ & _ & E8). unfold reg_state in *.
     change (cc_enc (ccu_nextID c (u32 (cc_nextID c + 2)))) with (cc_enc c) in *.
     destruct (cl_request_block enc_field (cc_enc c) (ct_req x)) as [blk e'] eqn:RB. cbn [fst] in *.
-    destruct RI as (l & H1 & H2 & e & H3 & H4). specialize (H4 L). subst e.
+    destruct RI as (l & H1 & H2 & HP & e & H3 & H4). specialize (H4 L). subst e.
     destruct II as (k & _ & NXT & _). specialize (NXT L).
-    exists (l ++ [(cc_nextID c, tag, ct_req x, blk)]). split; [|split].
+    exists (l ++ [inr (cc_nextID c, tag, ct_req x, blk)]). rewrite rights_of_app, sizes_of_app. cbn [rights_of sizes_of flat_map app]. rewrite app_nil_r.
+    split; [|split; [|split]].
     + cbn [cl_note cc_out ccu_out rev]. rewrite E2, hdrs_of_app, H1, map_app. reflexivity.
     + intros id t rq b I. apply in_app_or in I. destruct I as [I|[I|[]]].
       * destruct (H2 id t rq b I) as (N0 & y & Gy & Sy & Ry). split; [exact N0|].
@@ -187,43 +244,89 @@ Proof.
         exists y. change (cl_ctx_get (cl_note ?a ?o) t) with (cl_ctx_get a t). rewrite E8. replace (t =? tag) with false by lia. repeat split; assumption.
       * inversion I; subst id t rq b. split; [lia|]. eexists. change (cl_ctx_get (cl_note ?a ?o) tag) with (cl_ctx_get a tag).
         rewrite E8, N.eqb_refl. split; [reflexivity|]. split; reflexivity.
+    + exact HP.
     + exists e'. split.
-      * rewrite map_app. cbn [map re_rb]. eapply ec_req; [exact H3 | exact RB].
+      * rewrite map_app. cbn [map rop_eop re_rb]. eapply ecs_req; [exact H3 | exact RB].
       * intros _. cbn [cl_note cc_enc ccu_out]. unfold open_pending. destruct (rq_has_body (ct_req x)); [destruct (cq_body (ct_req x))|]; reflexivity.
   - (* the HEADERS write failed: the write loop is over *)
-    destruct (reg_state_facts dec_field enc_field enc_set_max c tag x G LE) as (E1 & E2 & E3 & _ & _ & _ & _ & E8).
-    destruct RI as (l & H1 & H2 & e & H3 & H4). exists l. split; [|split].
+    destruct (reg_state_facts dec_field enc_field smid c tag x G LE) as (E1 & E2 & E3 & _ & _ & _ & _ & E8).
+    destruct RI as (l & H1 & H2 & HP & e & H3 & H4). exists l. split; [|split; [|split]].
     + destruct (qm_out _ _ _ Q) as (new & EO & FO). rewrite EO, rev_app_distr, hdrs_of_app, E2, H1, (hdrs_of_q1 new FO), app_nil_r. reflexivity.
     + intros id t rq b I. destruct (H2 id t rq b I) as (N0 & y & Gy & Sy & Ry). split; [exact N0|].
       assert (t <> tag) by (intro; subst t; rewrite G in Gy; inversion Gy; subst y; congruence).
       assert (GR : cl_ctx_get (open_pending (fst (reg_state enc_field c tag x)) (cc_nextID c) tag (ct_req x)) t = Some y).
       { rewrite E8. replace (t =? tag) with false by lia. exact Gy. }
       destruct (srk_qm _ _ _ Q t y GR) as (y' & Gy' & Ry' & Sy'). exists y'. split; [exact Gy'|]. split; [rewrite Sy'; [exact Sy | rewrite Sy; exact N0] | congruence].
+    + exact HP.
     + exists e. split; [exact H3|]. intro L'. rewrite L in L'. discriminate.
   - apply (ReqInv_keep e0 c); try reflexivity; [|exists [COResult tag (cl_retryable e) e (ct_resp x)]; split; reflexivity | auto | exact RI].
     cbv zeta. change (srk c (cl_ctx_put c (ctu_pooled (ctu_returned (ctu_resolved (ctu_done (ctu_armed (ctu_err x None) false) true) true) true) ((if ct_armed x then negb (ct_fired x) else true) && ct_finished x)))).
     apply (srk_put c x); [cbn; destruct (cl_ctxs_get_In _ _ _ G) as [_ T]; rewrite T; exact G | reflexivity | reflexivity].
 Qed.
 
-
 Lemma hdrs_of_q2 l : forallb q2 l = true -> hdrs_of (rev l) = [].
 Proof. intro F. apply hdrs_of_q1. exact (q2_q1_all _ F). Qed.
 
-Lemma ReqInv_feed e0 c fr c3 : Pre c -> feedmove fr c c3 -> ReqInv e0 c -> ReqInv e0 c3.
+Lemma ReqInv_feed e0 c fr c3 : Pre c -> feedmove fr c c3 -> ReqInvS e0 c -> ReqInvS e0 c3.
 Proof.
   intros P F RI. destruct (feedmove_fm dec_field c fr c3 (p_herr _ P) F) as (tg & FM & _ & _).
   apply (ReqInv_keep e0 c c3); [exact (srk_feedmove c fr c3 (p_herr _ P) F) | | exact (fm_enc _ _ _ FM) | exact (fm_wl _ _ _ FM) | exact RI].
   destruct (fm_out _ _ _ FM) as (new & EO & FO). exists new. split; [exact EO | exact (hdrs_of_q2 _ FO)].
 Qed.
 
-Lemma PreIdReq_mvs e0 tk c c' : mvs tk c c' -> Pre c -> IdInv c -> ReqInv e0 c -> Pre c' /\ IdInv c' /\ ReqInv e0 c'.
+Lemma PreIdReq_mvs e0 tk c c' : mvs tk c c' -> Pre c -> IdInv c -> ReqInvS e0 c -> Pre c' /\ IdInv c' /\ ReqInvS e0 c'.
 Proof.
   intro M. induction M as [c|tk c c1 c2 M1 M IH|fr c c1 c2 F M IH]; intros P I R.
   - split; [assumption | split; assumption].
-  - assert (PI : Pre c1 /\ IdInv c1) by (eapply (PreId_mvs dec_field enc_field enc_set_max); [eapply ms_step; [exact M1 | apply ms_refl] | exact P | exact I]).
+  - assert (PI : Pre c1 /\ IdInv c1) by (eapply (PreId_mvs dec_field enc_field smid); [eapply ms_step; [exact M1 | apply ms_refl] | exact P | exact I]).
     destruct PI as [P1 I1]. apply IH; [exact P1 | exact I1 | exact (ReqInv_mv1 e0 c c1 P I R M1)].
-  - assert (PI : Pre c1 /\ IdInv c1) by (eapply (PreId_mvs dec_field enc_field enc_set_max); [eapply ms_feed; [exact F | apply ms_refl] | exact P | exact I]).
+  - assert (PI : Pre c1 /\ IdInv c1) by (eapply (PreId_mvs dec_field enc_field smid); [eapply ms_feed; [exact F | apply ms_refl] | exact P | exact I]).
     destruct PI as [P1 I1]. apply IH; [exact P1 | exact I1 | exact (ReqInv_feed e0 c fr c1 P F R)].
+Qed.
+
+(* ---------- the one SetMaxTableSize call of writeRequest ---------- *)
+Definition setsz c : cconn hstate :=
+  ccu_enc (ccu_encTableSeen c (cc_encTableSize c)) (enc_set_max (cc_enc c) (cc_encTableSize c)).
+
+Lemma ReqInv_setsz e0 c : Psz (cc_encTableSize c) -> ReqInvS e0 c -> ReqInvS e0 (setsz c).
+Proof.
+  intros PS (l & H1 & H2 & HP & e & H3 & H4). exists (l ++ [inl (cc_encTableSize c)]).
+  rewrite rights_of_app, sizes_of_app. cbn [rights_of sizes_of flat_map app]. rewrite app_nil_r.
+  split; [exact H1|]. split; [exact H2|]. split; [apply Forall_app; split; [exact HP | constructor; [exact PS | constructor]]|].
+  exists (enc_set_max e (cc_encTableSize c)). split; [rewrite map_app; apply ecs_size, H3|].
+  intro L. change (cl_wl_live (setsz c)) with (cl_wl_live c) in L. rewrite (H4 L). reflexivity.
+Qed.
+
+End WithP.
+
+Lemma write_request_split c tag :
+  cl_write_request enc_field enc_set_max c tag = cl_write_request enc_field smid c tag \/
+  cl_write_request enc_field enc_set_max c tag = cl_write_request enc_field smid (setsz c) tag.
+Proof.
+  unfold cl_write_request.
+  change (cl_can_open_stream (setsz c)) with (cl_can_open_stream c). change (cl_ctx_get (setsz c) tag) with (cl_ctx_get c tag).
+  destruct (negb (cl_can_open_stream c)); [left; reflexivity|].
+  destruct (cl_ctx_get c tag) as [x|]; [|left; reflexivity].
+  destruct (ct_lckStuck x); [left; reflexivity|]. destruct (ct_done x); [left; reflexivity|].
+  destruct (cc_encTableSize c =? cc_encTableSeen c) eqn:E; cbn [negb].
+  - left. reflexivity.
+  - right. change (cc_encTableSize (setsz c)) with (cc_encTableSize c). change (cc_encTableSeen (setsz c)) with (cc_encTableSize c).
+    rewrite N.eqb_refl. cbn [negb]. reflexivity.
+Qed.
+
+Lemma wl_in_split c :
+  cl_wl_in enc_field enc_set_max cfg c = cl_wl_in enc_field smid cfg c \/
+  cl_wl_in enc_field enc_set_max cfg c = cl_wl_in enc_field smid cfg (setsz c).
+Proof.
+  unfold cl_wl_in. change (cc_inQ (setsz c)) with (cc_inQ c). destruct (cc_inQ c) as [|tag q]; [left; reflexivity|].
+  destruct (write_request_split (ccu_inQ c q) tag) as [E|E]; rewrite E; [left; reflexivity | right; reflexivity].
+Qed.
+
+Lemma step_split c e :
+  step c e = stepi c e \/ (e = CEvWLIn /\ step c e = stepi (setsz c) e).
+Proof.
+  destruct e; try (left; reflexivity). cbn [cl_step]. change (cl_wl_live (setsz c)) with (cl_wl_live c).
+  destruct (cl_wl_live c); [|left; reflexivity]. destruct (wl_in_split c) as [E|E]; rewrite E; [left; reflexivity | right; split; reflexivity].
 Qed.
 
 Variable h0 : hstate.
@@ -231,19 +334,33 @@ Variable first : bytes.
 Notation run := (cl_run dec_field enc_field enc_set_max cfg h0 first).
 Notation init := (cl_init enc_set_max h0 first).
 
-Lemma ReqInv_init : ReqInv (cc_enc init) init.
+Lemma ReqInv_init Psz : ReqInvS Psz (cc_enc init) init.
 Proof.
-  exists []. split; [|split].
+  exists []. split; [|split; [|split]].
   - unfold cl_init. destruct (cl_settings_deserialize false first); reflexivity.
   - intros id tag rq blk [].
+  - constructor.
   - exists (cc_enc init). split; [constructor | reflexivity].
+Qed.
+
+(* every size the encoder is given is the cc_encTableSize of a state the run went through *)
+Theorem ReqInvS_run (Psz : N -> Prop) evs :
+  (forall pre post, evs = pre ++ post -> Psz (cc_encTableSize (run pre))) ->
+  Pre (run evs) /\ IdInv (run evs) /\ ReqInvS Psz (cc_enc init) (run evs).
+Proof.
+  induction evs as [|e evs IH] using rev_ind; intro HP.
+  - rewrite (cl_run_nil hstate). split; [eapply (Pre_init dec_field enc_field) | split; [eapply (Pre_init dec_field enc_field) | apply ReqInv_init]].
+  - destruct IH as (P & I & R). { intros pre post E. apply (HP pre (post ++ [e])). rewrite E, app_assoc. reflexivity. }
+    pose proof (HP evs [e] eq_refl) as PS. rewrite (cl_run_snoc hstate). set (c := run evs) in *.
+    destruct (step_split c e) as [E|[-> E]]; rewrite E.
+    + exact (PreIdReq_mvs Psz _ _ _ _ (step_mvs dec_field enc_field smid cfg c e P) P I R).
+    + destruct (PreId_mvs dec_field enc_field enc_set_max None c (setsz c) (mvs_one _ _ _ _ _ (m_encsize enc_field enc_set_max c)) P I) as [P1 I1].
+      exact (PreIdReq_mvs Psz _ _ _ _ (step_mvs dec_field enc_field smid cfg (setsz c) CEvWLIn P1) P1 I1 (ReqInv_setsz Psz _ c PS R)).
 Qed.
 
 Theorem ReqInv_run evs : Pre (run evs) /\ IdInv (run evs) /\ ReqInv (cc_enc init) (run evs).
 Proof.
-  apply (cl_run_ind _ dec_field enc_field enc_set_max cfg h0 first (fun c => Pre c /\ IdInv c /\ ReqInv (cc_enc init) c)).
-  - split; [eapply (Pre_init dec_field enc_field) | split; [eapply (Pre_init dec_field enc_field) | exact ReqInv_init]].
-  - intros c e (P & I & R). exact (PreIdReq_mvs _ _ _ _ (step_mvs dec_field enc_field enc_set_max cfg c e P) P I R).
+  destruct (ReqInvS_run (fun _ => True) evs (fun _ _ _ => I)) as (P & I1 & R). split; [exact P|]. split; [exact I1|]. exact (ReqInvS_ReqInv _ _ _ R).
 Qed.
 
 (* C02 (b), the header blocks: the HEADERS frames written in a run are, in order, the encoder's blocks for the requests of
@@ -255,6 +372,17 @@ Theorem request_blocks evs :
        id <> 0 /\ exists x, cl_ctx_get (run evs) tag = Some x /\ ct_sid x = id /\ ct_req x = rq) /\
     exists e, enc_chain (cc_enc init) (map re_rb l) e /\ (cl_wl_live (run evs) = true -> e = cc_enc (run evs)).
 Proof. destruct (ReqInv_run evs) as (_ & _ & R). exact R. Qed.
+
+(* ... with the SetMaxTableSize calls in between, each with a value cc_encTableSize had at the start of a step *)
+Theorem request_blocks_sizes (Psz : N -> Prop) evs :
+  (forall pre post, evs = pre ++ post -> Psz (cc_encTableSize (run pre))) ->
+  exists ops : list rop,
+    hdrs_of (cl_trace (run evs)) = map re_hdr (rights_of ops) /\
+    (forall id tag rq blk, In (id, tag, rq, blk) (rights_of ops) ->
+       id <> 0 /\ exists x, cl_ctx_get (run evs) tag = Some x /\ ct_sid x = id /\ ct_req x = rq) /\
+    Forall Psz (sizes_of ops) /\
+    exists e, enc_chain_s (cc_enc init) (map rop_eop ops) e /\ (cl_wl_live (run evs) = true -> e = cc_enc (run evs)).
+Proof. intro HP. destruct (ReqInvS_run Psz evs HP) as (_ & _ & R). exact R. Qed.
 
 (* END_STREAM is on the HEADERS frame exactly when the request has no body *)
 Theorem end_stream_on_headers evs id es blk :
